@@ -90,6 +90,8 @@ class Run:
                     pos = e['pos']
                     if e['action'] == 'Vote':
                         vote = bytearray()
+                    if e['action'] == 'Pack':
+                        ev.append({'ev': 'PackBegin'})
                 elif e['action'] == 'Vote' and e['ok']:
                     if len(vote) >= 23:
                         htl = struct.unpack('>Q', bytes(vote[8:16]))[0]
@@ -110,7 +112,7 @@ class Run:
                             break
                         if x['ev'] != 'Side' and not x['ev'].startswith('Probe'):
                             break
-                    ev.append({'ev': 'Side', 'what': 'Pack'})
+                    ev.append({'ev': 'PackEnd'})
                 else:
                     ev.append({'ev': 'Side', 'what': e['action']})
             elif e.get('file') == DATA:
@@ -132,6 +134,8 @@ class Run:
                 ev.append({'ev': 'Side', 'what': '%s:%s' % (op, e.get('file'))})
             for p in probes.get(('after', i), ()):
                 ev.append({'ev': 'Probe', 'n': p['n'], 'at': i})
+            for p in probes.get(('pack', i), ()):
+                ev.append({'ev': 'ProbePack', 'n': p['n'], 'at': i, 'after_op': p['after_op'], 'window': p['window']})
             for p in probes.get(('index', i), ()):
                 ev.append({'ev': 'ProbeIndex', 'n': p['n'], 'at': i, 'snap': p['snap'], 'stale': p['stale'], 'variant': p['variant']})
             for p in probes.get(('ro', i), ()):
@@ -310,6 +314,43 @@ class Run:
         self.nsnaps = len(snaps)
         return probes
 
+    # ---- C08: crash at every operation of a pack ----
+    def probe_c08(self):
+        probes = {}
+        details = []
+        files = faultfs.materialize(self.log, self.start)
+        img = os.path.join(self.dir, 'img')
+        nimg = 0
+        in_pack = False
+        renamed_away = False
+        for i in range(self.start, len(self.log)):
+            e = self.log[i]
+            if e['op'] == 'mark':
+                if e['action'] == 'Pack':
+                    in_pack = e['label'] == 'call'
+                    renamed_away = False
+                continue
+            faultfs.apply_op(files, e)
+            if not in_pack:
+                continue
+            if e['op'] == 'rename' and e.get('file') == DATA:
+                renamed_away = True
+            if e['op'] == 'rename' and e.get('dst') == DATA:
+                renamed_away = False
+            shutil.rmtree(img, ignore_errors=True)
+            faultfs.write_image(files, img)
+            n, det = self.recovered(img)
+            nimg += 1
+            what = '%s %s%s' % (e['op'], e.get('file'), ('->' + e['dst']) if e.get('dst') else '')
+            probes.setdefault(('pack', i), []).append(
+                {'n': n, 'after_op': what, 'window': 'between-renames' if renamed_away else 'other'})
+            if not n:
+                details.append({'at': i, 'kind': 'pack', 'after_op': what, 'detail': det})
+        shutil.rmtree(img, ignore_errors=True)
+        self.nimages = nimg
+        self.probe_details = details
+        return probes
+
     def _packed_between(self, a, b):
         return any(e['op'] == 'rename' and e.get('dst') == DATA for e in self.log[a:b])
 
@@ -342,7 +383,9 @@ def run_behaviour(job):
     r = Run(beh, c, workdir, opts)
     try:
         r.execute()
-        if opts.get('mode') == 'c09':
+        if opts.get('mode') == 'c08':
+            probes = r.probe_c08()
+        elif opts.get('mode') == 'c09':
             import random
             probes = r.probe_c09(random.Random(opts.get('rng_seed', 0)))
         else:
